@@ -42,6 +42,7 @@ COQ_PROPS = "Props/C16.v"
 DRIVER_NAME = "c16"
 HARNESS = {"bin": "c16"}
 EXTRA_HARNESS = {"po": ("release", ("po",))}
+EXTRA_ORACLE = ["po"]     # every other kind is also judged on the preserve_order build (the feature must not matter)
 THEOREMS = [
     "C16_table / C16_inline / C16_inline_tablelike: forall h, touches_placeholder kd h = false -> outputs and final observation of the model = those of the reference ordered map",
     "C16_table_refuted / C16_inline_refuted / C16_inline_tablelike_refuted: concrete histories in the class (write/entry paths on a placeholder key) on which they differ",
@@ -470,6 +471,10 @@ def _cls(case):
         for l, r in zip(todo, common.run_lines(common.driver_bin(DRIVER_NAME), todo)):
             _cls_cache[l] = r
     return _cls_cache[line]
+
+
+def extra_select(case, name):
+    return case.args[0] != b"map_sorted"      # the `po` build answers `skip` for the BTreeMap configuration
 
 
 def _impl(case, impl_line):
